@@ -1123,7 +1123,7 @@ func c23Targets() []c23Target {
 		{"*big.Int", reflect.TypeOf((*big.Int)(nil))},
 		{"struct{int16;[]byte;*string}", reflect.TypeOf(c23S3{})},
 		{"*struct{uint8}", reflect.TypeOf((*c23S1)(nil))},
-		{"[]int16", reflect.TypeOf([]int16(nil))}, {"[][]byte", reflect.TypeOf([][]byte(nil))}, {"[2]uint16", reflect.TypeOf([2]uint16{})},
+		{"[]int16", reflect.TypeOf([]int16(nil))}, {"[][]byte", reflect.TypeOf([][]byte(nil))}, {"[]string", reflect.TypeOf([]string(nil))}, {"[2]uint16", reflect.TypeOf([2]uint16{})},
 		{"map[string]uint8", reflect.TypeOf(map[string]uint8(nil))},
 		{"[]*struct{uint8}", reflect.TypeOf([]*c23S1(nil))},
 		{"TypedObj", reflect.TypeOf(TypedObj{})},
@@ -1511,6 +1511,57 @@ func c23LengthFamily() [][]byte {
 	return out
 }
 
+// c23NestedFamily: two and three nested long-form headers, each claiming a size
+// from a boundary set (independently of the other), followed by 0/1/5 bytes.
+// depth 2: list header { bytes header | list header } ; depth 3: list { list { bytes } }.
+func c23NestedFamily() [][]byte {
+	claims := []uint64{56, 256, 65536, 1000000, 1000001, 1 << 21, 1<<63 - 1, 1 << 63, 1<<64 - 1}
+	minLL := func(v uint64) int {
+		n := 1
+		for x := v >> 8; x > 0; x >>= 8 {
+			n++
+		}
+		return n
+	}
+	hdr := func(base byte, claim uint64, ll int) []byte {
+		return append([]byte{base + byte(ll)}, c23SizeBytes(claim, ll)...)
+	}
+	var out [][]byte
+	seen := map[string]bool{}
+	add := func(parts ...[]byte) {
+		var b []byte
+		for _, p := range parts {
+			b = append(b, p...)
+		}
+		if !seen[string(b)] {
+			seen[string(b)] = true
+			out = append(out, b)
+		}
+	}
+	tails := [][]byte{{}, {0x01}, []byte("hello")}
+	for _, oc := range claims {
+		for _, ic := range claims {
+			for _, oll := range []int{minLL(oc), 8} {
+				for _, ill := range []int{minLL(ic), 8} {
+					for _, ibase := range []byte{0xb7, 0xf7} {
+						for _, tl := range tails {
+							add(hdr(0xf7, oc, oll), hdr(ibase, ic, ill), tl)
+							// a well-formed first element before the oversized one
+							add(hdr(0xf7, oc, oll), []byte{0x01}, hdr(ibase, ic, ill), tl)
+						}
+					}
+				}
+			}
+			for _, mc := range claims {
+				for _, tl := range [][]byte{{}, []byte("hello")} {
+					add(hdr(0xf7, oc, minLL(oc)), hdr(0xf7, mc, minLL(mc)), hdr(0xb7, ic, minLL(ic)), tl)
+				}
+			}
+		}
+	}
+	return out
+}
+
 // c23IntFamily: byte strings of length 0..9 at the integer width boundaries,
 // wrapped as an RLP byte string.
 func c23IntFamily() [][]byte {
@@ -1559,7 +1610,7 @@ func c23IntFamily() [][]byte {
 
 func TestVerifC23(t *testing.T) {
 	r := ev.Start(t, "C23", "exploration")
-	r.Rule("(A) round trip: typed value grammar built with reflect — leaves: int8/16/32/64/int, uint8/16/32/64/uint at every byte-length boundary, bool, string and []byte of length {0,1,2,55,56,255,256} incl. single bytes 00/7f/80/ff and nil []byte, [4]byte, [1]byte, *big.Int (nil,0,±1,±127..129,±2^64,±2^255) and big.Int fields; constructors {pointer, slice, [2]array, map[string], 1-field struct} applied to every leaf with all leaf values (depth 1), constructor∘constructor over every leaf with representative values (depth 2), a third constructor over depth-2 shapes (quick every 4th shape, thorough all; pairwise values), integer-keyed maps, every ordered pair of leaf types as a 2-field struct, 3-field structs over 7 leaf types, 2-field structs of depth-1 shapes. (B) decoder robustness: every byte string of length<=2 (+ 3-byte strings: quick first byte {b8,c3,f7,f8} x 17 boundary second bytes x all third bytes, thorough 15 boundary first bytes x all 65536 tails) into 23 target types and UnmarshalAny; every single-byte substitution (24 boundary values; thorough all 256 values for encodings of at most 10 bytes) and truncation of valid encodings of at most 24 (thorough 32) bytes into their own type; every structural mutation of those encodings (one sub-item replaced by the nil marker / empty list / empty bytes / 00, deleted, or duplicated); length-field family (b8..bf / f8..ff headers x 18 claimed sizes x payload lengths {0,1,claim-1,claim,claim+1} x 4 fills, also nested in a list); integer family (byte strings of length 0..9 at the sign/width boundaries) into every integer type and bool. (B') pool hygiene, sequential on one P: after every accepted input of the structural, length-field and <=2-byte families the pooled BC.UnmarshalFromBytes must still decode an unrelated valid message. (C) map determinism: every insertion order of up to 4 (thorough 6) keys. distinct_nontrivial = distinct (type, encoding) resp. (target, input) pairs")
+	r.Rule("(A) round trip: typed value grammar built with reflect — leaves: int8/16/32/64/int, uint8/16/32/64/uint at every byte-length boundary, bool, string and []byte of length {0,1,2,55,56,255,256} incl. single bytes 00/7f/80/ff and nil []byte, [4]byte, [1]byte, *big.Int (nil,0,±1,±127..129,±2^64,±2^255) and big.Int fields; constructors {pointer, slice, [2]array, map[string], 1-field struct} applied to every leaf with all leaf values (depth 1), constructor∘constructor over every leaf with representative values (depth 2), a third constructor over depth-2 shapes (quick every 4th shape, thorough all; pairwise values), integer-keyed maps, every ordered pair of leaf types as a 2-field struct, 3-field structs over 7 leaf types, 2-field structs of depth-1 shapes. (B) decoder robustness: every byte string of length<=2 (+ 3-byte strings: quick first byte {b8,c3,f7,f8} x 17 boundary second bytes x all third bytes, thorough 15 boundary first bytes x all 65536 tails) into 24 target types and UnmarshalAny; every single-byte substitution (24 boundary values; thorough all 256 values for encodings of at most 10 bytes) and truncation of valid encodings of at most 24 (thorough 32) bytes into their own type; every structural mutation of those encodings (one sub-item replaced by the nil marker / empty list / empty bytes / 00, deleted, or duplicated); length-field family (b8..bf / f8..ff headers x 18 claimed sizes x payload lengths {0,1,claim-1,claim,claim+1} x 4 fills, also nested in a list); nested length-field family (a long-form list header around a long-form bytes or list header, and list{list{bytes}}, every combination of 9 claimed sizes per header from 56 to 2^64-1 in minimal and 8-byte form, with 0/1/5 trailing bytes, optionally after one well-formed element) into every target, plus a sequential per-case allocation measurement of both families through UnmarshalFromBytes (bound O(input)) and through the stream decoder (bound MaxSizeForBytes); integer family (byte strings of length 0..9 at the sign/width boundaries) into every integer type and bool. (B') pool hygiene, sequential on one P: after every accepted input of the structural, length-field and <=2-byte families the pooled BC.UnmarshalFromBytes must still decode an unrelated valid message. (C) map determinism: every insertion order of up to 4 (thorough 6) keys. distinct_nontrivial = distinct (type, encoding) resp. (target, input) pairs")
 	r.Assume("a pointer to a nil slice/map/pointer has the same encoding (f8 00) as a nil pointer: the format cannot keep them apart, the decoder returns the former, and the comparison treats the two as one value",
 		"interface-typed fields and ordered TypedDict.Keys are encode-only resp. order-preserving by design and are not compared structurally (typed objects are compared through UnmarshalAny)",
 		"the independent RLP reader in the harness (with goloop's f8 00 = nil extension) is trusted for sizes and structure")
@@ -1592,7 +1643,20 @@ func TestVerifC23(t *testing.T) {
 				}
 			}
 		case "decode":
-			if tg, ok := tgByName[c.Target]; ok {
+			if tg, ok := tgByName[c.Target]; ok && c.Note == "alloc" {
+				out := reflect.New(tg.t)
+				var ms0, ms1 runtime.MemStats
+				ev.Catch(func() {
+					BC.UnmarshalFromBytes(in, out.Interface())
+					runtime.ReadMemStats(&ms0)
+					BC.UnmarshalFromBytes(in, out.Interface())
+					runtime.ReadMemStats(&ms1)
+				})
+				r.Eval(1)
+				if d := ms1.TotalAlloc - ms0.TotalAlloc; d > uint64(16384+256*len(in)) {
+					r.Violation("allocation-beyond-input:"+tg.name+":"+c23HeaderClass(in), fmt.Sprintf("allocated %d bytes for %d input bytes", d, len(in)), c)
+				}
+			} else if ok {
 				e.decode(tg, in, c.Note)
 			} else {
 				// mutation family: the target is a grammar type, found by name
@@ -1636,6 +1700,23 @@ func TestVerifC23(t *testing.T) {
 				r.Eval(1)
 			}
 			runtime.GOMAXPROCS(prev)
+		case "stream":
+			if tg, ok := tgByName[c.Target]; ok {
+				out := reflect.New(tg.t)
+				var ms0, ms1 runtime.MemStats
+				var err error
+				p := ev.Catch(func() {
+					runtime.ReadMemStats(&ms0)
+					err = BC.NewDecoder(bytes.NewReader(in)).Decode(out.Interface())
+					runtime.ReadMemStats(&ms1)
+				})
+				r.Eval(1)
+				if p != "" {
+					r.Violation("stream-decode-panics:"+tg.name+":"+c23HeaderClass(in), p, c)
+				} else if d := ms1.TotalAlloc - ms0.TotalAlloc; d > uint64(MaxSizeForBytes+65536+256*len(in)) {
+					r.Violation("stream-allocation-beyond-limit:"+tg.name+":"+c23HeaderClass(in), fmt.Sprintf("allocated %d err=%v", d, err), c)
+				}
+			}
 		case "any":
 			e.decodeAny(in, c.Note)
 		case "anyvalue":
@@ -1766,6 +1847,12 @@ func TestVerifC23(t *testing.T) {
 		addAll(in, "length-field")
 	}
 	r.Set("length_field_inputs", len(lf))
+	// B2b nested length fields (two / three oversized headers inside each other)
+	nested := c23NestedFamily()
+	for _, in := range nested {
+		addAll(in, "nested-length-field")
+	}
+	r.Set("nested_length_field_inputs", len(nested))
 	// B3 integers
 	intf := c23IntFamily()
 	for _, in := range intf {
@@ -1933,8 +2020,14 @@ func TestVerifC23(t *testing.T) {
 	// ---- allocation bound (sequential: TotalAlloc is process-wide) ----
 	allocChecked := 0
 	var ms0, ms1 runtime.MemStats
-	for _, in := range lf {
-		for _, name := range []string{"[]byte", "string", "*big.Int", "struct{int16;[]byte;*string}", "[][]byte", "TypedObj"} {
+	allocInputs := append(append([][]byte{}, lf...), nested...)
+	for ai, in := range allocInputs {
+		isNested := ai >= len(lf)
+		allocTargets := []string{"[]byte", "string", "*big.Int", "struct{int16;[]byte;*string}", "[][]byte", "TypedObj"}
+		if isNested {
+			allocTargets = []string{"struct{int16;[]byte;*string}", "[][]byte", "[]string", "[]int16", "map[string]uint8"}
+		}
+		for _, name := range allocTargets {
 			tg := tgByName[name]
 			out := reflect.New(tg.t)
 			var err error
@@ -1951,6 +2044,34 @@ func TestVerifC23(t *testing.T) {
 			bound := uint64(16384 + 256*len(in))
 			if d := ms1.TotalAlloc - ms0.TotalAlloc; d > bound {
 				r.Violation("allocation-beyond-input:"+name+":"+c23HeaderClass(in), fmt.Sprintf("input=%s (%d bytes) made UnmarshalFromBytes allocate %d bytes (bound %d), err=%v", c23Hex(in), len(in), d, bound, err), c23Case{Phase: "decode", Target: name, Hex: hex.EncodeToString(in), Note: "alloc"})
+			}
+		}
+		// the stream decoder documents a 1 MB limit for byte strings (MaxSizeForBytes)
+		for _, name := range []string{"[][]byte", "struct{int16;[]byte;*string}"} {
+			if !isNested && len(in) > 24 {
+				continue
+			}
+			tg := tgByName[name]
+			out := reflect.New(tg.t)
+			var err error
+			p := ev.Catch(func() {
+				runtime.ReadMemStats(&ms0)
+				err = BC.NewDecoder(bytes.NewReader(in)).Decode(out.Interface())
+				runtime.ReadMemStats(&ms1)
+			})
+			r.Eval(1)
+			allocChecked++
+			cs := c23Case{Phase: "stream", Target: name, Hex: hex.EncodeToString(in)}
+			if p != "" {
+				r.Violation("stream-decode-panics:"+name+":"+c23HeaderClass(in), fmt.Sprintf("input=%s panic=%s", c23Hex(in), p), cs)
+				continue
+			}
+			bound := uint64(MaxSizeForBytes + 65536 + 256*len(in))
+			if d := ms1.TotalAlloc - ms0.TotalAlloc; d > bound {
+				r.Violation("stream-allocation-beyond-limit:"+name+":"+c23HeaderClass(in), fmt.Sprintf("input=%s (%d bytes) made the stream decoder allocate %d bytes (limit %d), err=%v", c23Hex(in), len(in), d, bound, err), cs)
+			}
+			if _, _, st := c23Parse(in); err == nil && (st == c23Beyond || st == c23Empty) {
+				r.Violation("accepts-size-beyond-input:stream:"+name, fmt.Sprintf("input=%s", c23Hex(in)), cs)
 			}
 		}
 	}
